@@ -35,13 +35,44 @@ WORKERS = int(os.environ.get("VERIF_C10_WORKERS", "0")) or None
 JOBS = int(os.environ.get("VERIF_C10_JOBS", "0")) or None
 
 
+class _Cached(object):
+    """TLC result restored from VERIF_C10_TLC_CACHE (development aid for repeated runs, e.g. mutation tests: the model
+    does not depend on /repo).  Never used unless the variable is set; evidence says so."""
+    ok = True
+
+    def __init__(self, d):
+        self.__dict__.update(d)
+        self.coverage = {k: tuple(v) for k, v in d["coverage"].items()}
+
+    def summary(self):
+        return dict(self.summary_, cached=True)
+
+
 def run_tlc(cfgs):
     """Run the PyLiteral configurations (two at a time) and return {cfg: TLCResult}."""
+    import hashlib
     w = WORKERS or max(2, core.NCPU // 2)
+    cache = os.environ.get("VERIF_C10_TLC_CACHE")
+
+    def key(cfg):
+        h = hashlib.sha1()
+        for fn in ("PyLiteral.tla", "PyLiteral_%s.cfg" % cfg):
+            with open(os.path.join(core.SPEC, fn), "rb") as f:
+                h.update(f.read())
+        return os.path.join(cache, "%s_%s.json" % (cfg, h.hexdigest()[:16]))
 
     def one(cfg):
-        return cfg, core.tlc("PyLiteral", cfg="PyLiteral_" + cfg, workers=w, coverage=True, timeout=2400,
-                             env={"JAVA_TOOL_OPTIONS": "-XX:ParallelGCThreads=2"})
+        if cache and os.path.exists(key(cfg)):
+            with open(key(cfg)) as f:
+                return cfg, _Cached(json.load(f))
+        r = core.tlc("PyLiteral", cfg="PyLiteral_" + cfg, workers=w, coverage=True, timeout=2400,
+                     env={"JAVA_TOOL_OPTIONS": "-XX:ParallelGCThreads=2"})
+        if cache and r.ok:
+            os.makedirs(cache, exist_ok=True)
+            with open(key(cfg), "w") as f:
+                json.dump({"generated": r.generated, "distinct": r.distinct, "printed": r.printed, "coverage": r.coverage,
+                           "summary_": r.summary()}, f)
+        return cfg, r
     out = {}
     with concurrent.futures.ThreadPoolExecutor(max_workers=2) as ex:
         for cfg, r in ex.map(one, cfgs):
@@ -57,6 +88,8 @@ def obs_class_for(want, got):
         return "no-observation"
     if got[0] == "exc":
         return "exception:" + got[1]
+    if got == ["none"] and want[1] == []:
+        return "none-for-empty"
     if got[0] != want[0]:
         return "wrong-type"
     if want[0] in ("str", "bytes") and 0 in want[1] and got[1] == want[1][:want[1].index(0)]:
@@ -77,12 +110,17 @@ def run(tier, seed):
     L.load_atom_classes()
     jobs = JOBS or core.NCPU
     thorough = tier == "thorough"
-    cov = {"tlc": [], "samples": []}
+    cov = {"tlc": [], "samples": [], "phase_wall_s": {}}
+
+    def phase(name, t_start):
+        cov["phase_wall_s"][name] = round(time.time() - t_start, 1)
+        return time.time()
+    tp = time.time()
 
     # ------------------------------------------------------------------ model checking
-    cfgs = ["single", "variants", "concat", "pairfull" if thorough else "pair", "long_t" if thorough else "long"]
+    cfgs = ["single", "variants", "concat", "pair", "long_t" if thorough else "long"]
     if thorough:
-        cfgs.append("triple")
+        cfgs += ["pairfull", "triple"]
     tl = run_tlc(cfgs)
     act = {}
     for cfg, r in tl.items():
@@ -93,6 +131,11 @@ def run(tier, seed):
     dead = [a for a in ACTIONS if not act.get(a)]
     if dead:
         core.die("vacuous model: actions never taken: %s" % dead)
+
+    # the transcription of the real algorithm must disagree with the reference somewhere (it predicts KF-C10-1/2);
+    # reported only: a fixed tree makes the transcription stale, not the check wrong
+    strict = core.tlc("PyLiteral", cfg="PyLiteral_strict", workers=2, timeout=600)
+    cov["model_predicts_a_defect_of_the_transcribed_algorithm"] = strict.violation == "CyAgrees"
 
     cases = {}
     n_published = 0
@@ -114,6 +157,7 @@ def run(tier, seed):
                 "cases_by_family": {f: sum(1 for c in cases if c.rec["fam"] == f) for f in sorted({c.rec["fam"] for c in cases})},
                 "cases_by_kind": {k: sum(1 for c in acc if c.kind == k) for k in ("str", "bytes", "char")}})
 
+    tp = phase("tlc", tp)
     # ------------------------------------------------------------------ S vs P (CPython) on every case
     for c in cases:
         p = L.py_oracle(c)
@@ -123,6 +167,7 @@ def run(tier, seed):
     if rep.drift:
         rep.finish()
 
+    tp = phase("cpython_oracle", tp)
     # ------------------------------------------------------------------ C, parse stage: the real scanner/parser/builders on every literal
     ids = {k: c for k, c in enumerate(cases)}
     parsed = L.parse_stage([(k, c.text) for k, c in ids.items() if not c.rep or len(c.text) < 20000], kind="pyx", jobs=min(jobs, 8))
@@ -164,7 +209,7 @@ def run(tier, seed):
     cov["transcription_fidelity"] = fidelity
 
     # parse-stage failures are confirmed with the complete compiler on a sample (one module per literal)
-    conf_cases = [cs[0] for cs in list(confirm.values())[:12]]
+    conf_cases = [cs[0] for cs in list(confirm.values())[:6]]
     if conf_cases:
         specs = [core.BuildSpec("conf%d" % k, "V = (%s,)\n" % c.text, cython_only=True) for k, c in enumerate(conf_cases)]
         for c, b in zip(conf_cases, core.build_many(specs, jobs=jobs)):
@@ -172,6 +217,7 @@ def run(tier, seed):
                 core.die("parse stage rejected %r but the complete compiler accepts it" % c.text)
     cov["parse_stage"]["failures_confirmed_by_full_compile"] = len(conf_cases)
 
+    tp = phase("parse_stage", tp)
     # ------------------------------------------------------------------ C, run time: modules x compression cells
     good = [c for k, c in ids.items() if c.acc and k in parse_ok]
     shortc = [c for c in good if not c.rep]
@@ -181,67 +227,189 @@ def run(tier, seed):
     else:
         must = [c for c in shortc if c.rec["fam"] in ("single", "variants") or c.rec["fused"]]
         rest = [c for c in shortc if not (c.rec["fam"] in ("single", "variants") or c.rec["fused"])]
-        chosen = must + core.sample(rest, max(0, 6000 - len(must)), rng)
+        chosen = must + core.sample(rest, max(0, 4000 - len(must)), rng)
     rng.shuffle(chosen)
+
+    # the string-table part (spec/StrTable.tla) runs beside the run-time stage: both mostly wait for child processes
+    table_thread, table_err = None, []
+    try:
+        from checks import c10_table
+    except ImportError:
+        c10_table = None
+    if c10_table is not None:
+        import threading
+        table_rng = random.Random(seed + 1)
+
+        def _table():
+            try:
+                c10_table.run_part(tier, seed, rep, cov, list(chosen), table_rng)
+            except BaseException as e:      # SystemExit from core.die included: re-raised in the main thread
+                table_err.append(e)
+        table_thread = threading.Thread(target=_table)
+        table_thread.start()
+
+    def surrogate(c):
+        return c.kind == "str" and any(0xD800 <= v <= 0xDFFF for v in c.val)
+    # str constants with lone surrogates take a path of their own (unicode_escape text as a C string constant); they are
+    # batched apart from bytes constants -- the interaction of the two is the `twins` family below
     modules = []
     per = 2000
-    for k in range(0, len(chosen), per):
-        m = L.Module("c10k%d" % (k // per))
-        for c in chosen[k:k + per]:
+    plain_cases = [c for c in chosen if not surrogate(c)]
+    for k in range(0, len(plain_cases), per):
+        m = L.Module("c10k%d" % (k // per), filler=True)
+        for c in plain_cases[k:k + per]:
             m.add(c, "char" if c.kind == "char" else "const")
         modules.append(m)
+    msur = L.Module("c10sur", table=False)
+    for c in chosen:
+        if surrogate(c):
+            msur.add(c, "const")
+    modules.append(msur)
     # the same literals in a .py file (pure Python mode; no char literals)
-    mpy = L.Module("c10py", kind="py")
-    for c in core.sample([c for c in chosen if c.kind != "char"], 4000 if thorough else 800, rng):
+    mpy = L.Module("c10py", kind="py", filler=True)
+    for c in core.sample([c for c in plain_cases if c.kind != "char"], 4000 if thorough else 800, rng):
         mpy.add(c, "const")
     modules.append(mpy)
     # use contexts that bypass the string table: bytes literal -> char* (own C literal), str literal -> docstring
     singles = [c for c in shortc if c.rec["fam"] in ("single", "variants", "concat")]
     ctxs = core.sample(singles, 2400 if thorough else 500, rng)
     doc_isolated = []
-    mctx = L.Module("c10ctx")
+    mctx = L.Module("c10ctx", table=False)
     for c in ctxs:
         if c.kind == "bytes":
             mctx.add(c, "cstr")
         elif c.kind == "str":
-            if any(0xD800 <= v <= 0xDFFF for v in c.val):
+            if surrogate(c):
                 doc_isolated.append(c)      # see below: each in its own module
             else:
                 mctx.add(c, "doc")
     modules.append(mctx)
     # long literals: table context, and their own C literal (char* / docstring)
-    mlong = L.Module("c10long")
-    mlongx = L.Module("c10longx")
+    mlong, mlongs, mlongx = L.Module("c10long", filler=True), L.Module("c10longs", table=False), L.Module("c10longx", table=False)
     for c in longc:
-        mlong.add(c, "const")
+        (mlongs if surrogate(c) else mlong).add(c, "const")
         if c.kind == "bytes":
             mlongx.add(c, "cstr")
-        elif not any(0xD800 <= v <= 0xDFFF for v in c.val):
+        elif not surrogate(c):
             mlongx.add(c, "doc")
-    modules += [mlong, mlongx]
+    modules += [mlong, mlongs, mlongx]
     modules = [m for m in modules if m.n()]
 
     cells = ["none", "zlib", "bz2", "lzss"] + (["cell3"] if thorough else [])
     first = "none"
-    specs = [core.BuildSpec(m.name, m.source(), kind=m.kind, cflags=["-DCYTHON_COMPRESS_STRINGS=" + L.CELLS[first]]) for m in modules]
+    flags = ["-DCYTHON_COMPRESS_STRINGS=" + L.CELLS[first]]
+    # twins: a str constant with a lone surrogate next to the bytes constant that spells its escaped text
+    # (b'\\ud800' is inert in a bytes literal: the six characters backslash u d 8 0 0).  Both are ordinary cases above;
+    # here they share one module, in both orders.
+    by_val = {}
+    for c in shortc:
+        if c.kind == "bytes":
+            by_val.setdefault(tuple(c.val), c)
+    twins = []
+    for c in shortc:
+        if surrogate(c) and len(c.rec["parts"]) == 1 and len(c.rec["parts"][0]["a"]) == 1:
+            esc = tuple(b for v in c.val for b in (b"\\u%04x" % v))
+            if esc in by_val:
+                twins.append((c, by_val[esc]))
+    twins = twins[:(8 if thorough else 2)]
+    tw_mods = []
+    for k, (cs, cb) in enumerate(twins):
+        for order in ("str-first", "bytes-first"):
+            m = L.Module("c10tw%d%s" % (k, order[0]))
+            for c in ((cs, cb) if order == "str-first" else (cb, cs)):
+                m.add(c, "const")
+            tw_mods.append((m, order))
+    iso = doc_isolated[:(40 if thorough else 6)]
+    miso = []
+    if iso:
+        for k, c in enumerate(iso):
+            m = L.Module("c10iso%d" % k)
+            m.add(c, "doc")
+            miso.append(m)
+    specs = [core.BuildSpec(m.name, m.source(), kind=m.kind, cflags=flags) for m in modules]
+    specs += [core.BuildSpec(m.name, m.source(), cflags=flags) for m, _ in tw_mods]
+    specs += [core.BuildSpec(m.name, m.source()) for m in miso]
     builds = core.build_many(specs, jobs=jobs, timeout=2400)
+    tw_builds = builds[len(modules):len(modules) + len(tw_mods)]
+    iso_builds = builds[len(modules) + len(tw_mods):]
+    builds = builds[:len(modules)]
     n_rt = 0
     algo_hits = {}
     first_good = None
-    for m, b in zip(modules, builds):
+    ddmin_builds = [0]
+
+    def still_fails(m, entries):
+        """does the Cython stage still fail for the sub-module with these entries?"""
+        sub = L.Module("%s_dd%d" % (m.name, ddmin_builds[0]), kind=m.kind)
+        ddmin_builds[0] += 1
+        for _, c, ctx in entries:
+            sub.add(c, ctx)
+        b = core.build_many([core.BuildSpec(sub.name, sub.source(), kind=sub.kind, cython_only=True)], jobs=1)[0]
+        return (not b.ok), b
+
+    def prepare(mb):
+        """C-compile the remaining cells and import every cell's module in a child (worker thread)."""
+        m, b = mb
+        if not b.ok:
+            return None
+        mcells = cells if m.table else [first]      # C-string constants do not pass through the compressed table
+        built = L.build_cells(b, mcells, first)
+        return L.table_branches(b.c_file), mcells, built, {cell: L.observe(built[cell][0], m) for cell in mcells if built[cell][0]}
+    with concurrent.futures.ThreadPoolExecutor(max_workers=max(1, jobs // 2)) as ex:
+        prepared = list(ex.map(prepare, zip(modules, builds)))
+
+    for (m, b), prep in zip(zip(modules, builds), prepared):
+        if not b.ok and b.stage in ("cython", "cython-crash"):
+            # attribute the failure: delta debugging down to a minimal failing set of literals (bounded)
+            ents = m.entries()
+            last_b = b
+            n = 2
+            while len(ents) >= 2 and ddmin_builds[0] < 40:
+                size = max(1, len(ents) // n)
+                chunks = [ents[k:k + size] for k in range(0, len(ents), size)]
+                reduced = False
+                for ch in chunks:
+                    if ddmin_builds[0] >= 40:
+                        break
+                    f, bb = still_fails(m, ch)
+                    if f:
+                        ents, last_b, n, reduced = ch, bb, 2, True
+                        break
+                if not reduced:
+                    for ch in chunks:
+                        if ddmin_builds[0] >= 40 or len(chunks) <= 2:
+                            break
+                        comp = [e for e in ents if e not in ch]
+                        f, bb = still_fails(m, comp)
+                        if f:
+                            ents, last_b, n, reduced = comp, bb, max(n - 1, 2), True
+                            break
+                if not reduced:
+                    if n >= len(ents):
+                        break
+                    n = min(len(ents), n * 2)
+            last = (last_b.errors or "").strip().splitlines()[-1] if (last_b.errors or "").strip() else ""
+            oc = ("compiler-crash:" + last.split(":")[0]) if last_b.stage == "cython-crash" else "rejected"
+            if len(ents) == 1:
+                _, c, ctx = ents[0]
+                rep.disagree(c.descriptor(ctx=ctx), oc, {"case": c.brief(), "module": m.name, "errors": (last_b.errors or "")[-800:]})
+            else:
+                rep.disagree({"part": "batch", "module_kind": m.kind, "stage": b.stage, "culprits": len(ents)}, oc,
+                             {"module": m.name, "minimal_failing_set(bounded search)": [c.brief() for _, c, _ in ents[:8]],
+                              "errors": (last_b.errors or "")[-800:]})
+            continue
         if not b.ok:
             rep.disagree({"part": "batch", "module_kind": m.kind, "stage": b.stage}, "build-failed",
                          {"module": m.name, "literals": m.n(), "errors": (b.errors or "")[-3000:]})
             continue
-        branches = L.table_branches(b.c_file)
-        built = L.build_cells(b, cells, first)
-        for cell in cells:
+        branches, mcells, built, observed = prep
+        for cell in mcells:
             so_dir, err = built[cell]
             algo = L.effective_algo(cell, branches)
             if so_dir is None:
                 rep.disagree({"part": "batch", "module_kind": m.kind, "stage": "cc", "cell": cell}, "build-failed", {"module": m.name, "errors": err})
                 continue
-            o = L.observe(so_dir, m)
+            o = observed[cell]
             if isinstance(o, tuple):
                 rep.disagree({"part": "batch", "module_kind": m.kind, "stage": "import", "cell": cell, "algo": algo}, o[0], dict(o[1], module=m.name))
                 continue
@@ -251,22 +419,32 @@ def run(tier, seed):
                 want = c.expected()
                 n_rt += 1
                 if got != want:
-                    rep.disagree(c.descriptor(ctx=ctx, cell=algo), obs_class_for(want, got),
+                    rep.disagree(c.descriptor(ctx=ctx, cell=algo if m.table else "n/a"), obs_class_for(want, got),
                                  {"case": c.brief(), "module": m.name, "module_kind": m.kind, "cell": cell, "want": short(want), "got": short(got)})
                 elif first_good is None and want[0] in ("str", "bytes") and want[1]:
                     first_good = (want, got)
         if len(cov["samples"]) < 4 and m.tuple_items:
             c = m.tuple_items[0][0]
             cov["samples"].append({"literal": c.brief(), "module": m.name, "cells": cells, "table_branches": branches})
+
+    if tw_mods:
+        for (m, order), b in zip(tw_mods, tw_builds):
+            desc = {"part": "twins", "order": order, "str_has_surrogate": True, "bytes_spell_escaped_text": True}
+            n_rt += 1
+            if not b.ok:
+                last = (b.errors or "").strip().splitlines()[-1] if (b.errors or "").strip() else ""
+                oc = ("compiler-crash:" + last.split(":")[0]) if b.stage == "cython-crash" else ("rejected" if b.stage == "cython" else "build-failed")
+                rep.disagree(desc, oc, {"module_source": m.source(), "stage": b.stage, "errors": (b.errors or "")[-600:]})
+                continue
+            o = L.observe(os.path.dirname(b.so), m)
+            want = [c.expected() for c, _ in m.tuple_items]
+            if isinstance(o, tuple) or o["V"] != want:
+                rep.disagree(desc, "wrong-value" if not isinstance(o, tuple) else o[0], {"module_source": m.source(), "want": want,
+                                                                                           "got": o if isinstance(o, tuple) else o["V"]})
+
     # docstrings with lone surrogates: each in its own module (a crash must not take the batch with it)
-    iso = doc_isolated[:(40 if thorough else 6)]
     if iso:
-        miso = []
-        for k, c in enumerate(iso):
-            m = L.Module("c10iso%d" % k)
-            m.add(c, "doc")
-            miso.append(m)
-        for m, c, b in zip(miso, iso, core.build_many([core.BuildSpec(m.name, m.source()) for m in miso], jobs=jobs)):
+        for m, c, b in zip(miso, iso, iso_builds):
             want = c.expected()
             n_rt += 1
             if not b.ok:
@@ -279,14 +457,16 @@ def run(tier, seed):
             if got != want:
                 rep.disagree(c.descriptor(ctx="doc"), obs_class_for(want, got), {"case": c.brief(), "want": short(want), "got": short(got)})
     # P for the docstring context (the demand there is CPython's __doc__)
-    for m in modules:
+    for m in modules + miso:
         for f, c, ctx in m.funcs:
             if ctx == "doc" and L.py_doc(c.text) != c.expected():
                 rep.spec_drift("docstring context: CPython __doc__ differs from the literal's value", {"case": c.brief()})
     cov["runtime"] = {"modules": len(modules), "cells": cells, "comparisons": n_rt, "constants_checked_per_effective_algorithm": algo_hits,
                       "literals_in_tuple_modules": len(chosen), "py_mode": mpy.n(), "char_ptr_context": sum(1 for _, _, x in mctx.funcs if x == "cstr"),
-                      "docstring_context": sum(1 for _, _, x in mctx.funcs if x == "doc") + len(iso), "long_literals": len(longc)}
+                      "docstring_context": sum(1 for _, _, x in mctx.funcs if x == "doc") + len(iso), "long_literals": len(longc),
+                      "twin_modules": len(tw_mods), "delta_debugging_builds": ddmin_builds[0]}
 
+    tp = phase("runtime_stage", tp)
     # binding demonstration: a corrupted expectation must be rejected by the comparison
     if first_good is None:
         if not rep.n_violations():
@@ -297,13 +477,12 @@ def run(tier, seed):
         if got == bad or obs_class_for(bad, got) != "wrong-value":
             core.die("binding self-test failed")
 
-    # ------------------------------------------------------------------ string table (spec/StrTable.tla)
-    try:
-        from checks import c10_table
-    except ImportError:
-        c10_table = None
-    if c10_table is not None:
-        c10_table.run_part(tier, seed, rep, cov, chosen, rng)
+    # ------------------------------------------------------------------ string table (spec/StrTable.tla): started earlier, joined here
+    if table_thread is not None:
+        table_thread.join()
+        if table_err:
+            raise table_err[0]
+    tp = phase("wait_for_table_part", tp)
 
     nontriv = sum(1 for c in acc if c.rep or len(c.rec["parts"]) > 1 or c.val != [ord(x) for x in body_text(c)])
     cov.update({
@@ -314,12 +493,12 @@ def run(tier, seed):
         "evaluations": len(cases), "distinct_nontrivial": nontriv,
         "exhaustive": True,
         "rule": "cases = terminal states of spec/PyLiteral.tla: all literals of <= 1 atom (102 atoms x 6 prefix classes x 4 quote kinds, 10 prefix "
-                "spellings x core atoms), <= 2 atoms over the %s alphabet x 5 prefix classes x 2 quote kinds, two adjacent literals over the mini "
+                "spellings x core atoms), <= 2 atoms over the core alphabet (39) x 5 prefix classes x 2 quote kinds%s, two adjacent literals over the mini "
                 "alphabet (25 prefix pairs), %slong literals x^k unit^n (15 units, k 0..3, n around 2000/4000/65536).  Distinct by (text, kind); "
                 "non-trivial = accepted and the value differs from the body text (an escape, a newline form, truncation mod 256) or is "
                 "concatenated or long.  Parse stage on every case; run time: %s" % (
-                    "full (102)" if thorough else "core (39)", "<= 3 atoms over the mini alphabet, " if thorough else "",
-                    "every accepted case" if thorough else "all of the <= 1 atom and fusing cases + a seeded sample of the rest (6000)"),
+                    " and over all 102 atoms in triple-quoted literals" if thorough else "", "<= 3 atoms over the mini alphabet, " if thorough else "",
+                    "every accepted case" if thorough else "all of the <= 1 atom and fusing cases + a seeded sample of the rest (4000 in all)"),
     })
     for c in core.sample(acc, 3, rng):
         cov["samples"].append({"literal": c.brief(), "demanded": short(c.expected())})
